@@ -23,12 +23,16 @@ type c20Params struct {
 	truncIface string // "TruncateableTable"
 	truncM     string // "Truncate"
 	setM       string // "SetAutoIncrementValue" (the ALTER TABLE … AUTO_INCREMENT = n entry)
+	rowType    string // "Row" (in sqlRel): elements of such values are row cells (rules N, U)
+	accIface   string // "tableEditAccumulator" (in rel): the interface through which rows are handed to the table
+	accAdd     string // "Insert": its row-adding method
 	floors     map[string]int
 }
 
 var c20Repo = c20Params{rel: "memory", structName: "TableData", field: "autoIncVal", sqlRel: "sql", colType: "Column", colField: "AutoIncrement",
 	truncIface: "TruncateableTable", truncM: "Truncate", setM: "SetAutoIncrementValue",
-	floors: map[string]int{"C20-W": 13, "C20-H": 1, "C20-R": 2}}
+	rowType: "Row", accIface: "tableEditAccumulator", accAdd: "Insert",
+	floors: map[string]int{"C20-W": 13, "C20-H": 1, "C20-R": 2, "C20-N": 2, "C20-U": 2}}
 
 // c20RExceptions: callers of a resetting helper that neither are the TRUNCATE entry point nor restore the counter.
 var c20RExceptions = map[string]string{
@@ -47,12 +51,17 @@ func init() {
 		Run:        func(c *Ctx) { runC20(c, c20Repo) },
 		Fixture: func(c *Ctx, fx *Prog) {
 			p := c20Params{rel: "testdata/c20/mem", structName: "TableData", field: "autoIncVal", sqlRel: "testdata/c20/sql", colType: "Column", colField: "AutoIncrement",
-				truncIface: "TruncateableTable", truncM: "Truncate", setM: "SetAutoIncrementValue", floors: map[string]int{}}
+				truncIface: "TruncateableTable", truncM: "Truncate", setM: "SetAutoIncrementValue",
+				rowType: "Row", accIface: "rowStore", accAdd: "Put", floors: map[string]int{}}
 			expectFixture(c, fx, "c20: non-monotone counter writes must be reported", []string{
 				"C20-W:Table.Insert/unclassified",
 				"C20-W:Table.Delete/unclassified",
 				"C20-H:bumpUnsafe/increment-shape",
 				"C20-R:Table.Rewrite/calls TableData.truncate",
+				"C20-N:Table.InsertNoBump/counter-past-stored-cell",
+				"C20-N:Table.InsertEqualNotBumped/counter-past-stored-cell",
+				"C20-N:Table.InsertSplitNoBump/counter-past-stored-cell",
+				"C20-U:Table.Update/stores row via rowStore.Put",
 			}, func(fc *Ctx) { runC20(fc, p) })
 		},
 		FixturePkgs: []string{"./testdata/c20/sql", "./testdata/c20/mem"},
@@ -575,4 +584,6 @@ func runC20(c *Ctx, p c20Params) {
 		}
 	}
 	_ = strings.TrimSpace
+
+	runC20Next(c, p, pk.Types, sqlPk.Types, tn, fieldIdx, funcs, pkgOf, short, helpers)
 }
